@@ -203,6 +203,12 @@ def TView.scalar (v : TView ν α) : Outcome α :=
   | some x => .ok x
   | none => .panic .unwrap
 
+/-- `TensorView<T, S, 0>::into_scalar` (`TensorOwnedIterator::from(source).next().unwrap()`) -/
+def TView.intoScalar (v : TView ν α) : Outcome α :=
+  match v.iter.head? with
+  | some x => .ok x
+  | none => .panic .unwrap
+
 /-! ### in-place transformations -/
 
 /-- `dimensions::is_square` -/
@@ -327,5 +333,38 @@ def tensorSimilarity [DecidableEq α] [Inhabited ν] (l r : TView ν α) : Bool 
   | some rightAccess =>
     if leftShape ≠ rightAccess.shape then false
     else (leftAccess.iter.zip rightAccess.iter).all fun p => decide (p.1 = p.2)
+
+/-! ### further constructors and shape look-ups (driven by C01) -/
+
+/-- `Tensor::from_fn`: `ShapeIterator::from(shape)`, `producer(index)` pushed for every index
+    in turn, then `Tensor::from(shape, data)` (panics where this is `none`). -/
+def Tensor.fromFn (shape : Shape ν) (producer : List Nat → α) : Option (Tensor ν α) :=
+  Tensor.tryFrom shape ((shapeIndexes (shape.map (·.2))).map producer)
+
+/-- `Tensor::from_scalar` / `From<T> for Tensor<T, 0>` (the struct is built directly). -/
+def Tensor.fromScalar (value : α) : Tensor ν α := { data := [value], shape := [], strides := [] }
+
+/-- `dimensions::position_of` -/
+def dimPositionOf (shape : Shape ν) (dimension : ν) : Option Nat :=
+  findPos (fun d => decide (d.1 = dimension)) shape
+
+/-- `dimensions::contains` -/
+def dimContains (shape : Shape ν) (dimension : ν) : Bool :=
+  shape.any fun d => decide (d.1 = dimension)
+
+/-- `dimensions::length_of` / `Tensor::length_of` / `TensorView::length_of` -/
+def dimLengthOf (shape : Shape ν) (dimension : ν) : Option Nat :=
+  (shape.find? fun d => decide (d.1 = dimension)).map (·.2)
+
+/-- `dimensions::last_index_of` (`length.saturating_sub(1)`) -/
+def dimLastIndexOf (shape : Shape ν) (dimension : ν) : Option Nat :=
+  (dimLengthOf shape dimension).map (· - 1)
+
+/-- `dimensions::names_of` -/
+def dimNamesOf (shape : Shape ν) : List ν := shape.map (·.1)
+
+/-- `InvalidShapeError::is_valid` -/
+def shapeIsValid (shape : Shape ν) : Bool :=
+  !hasDuplicates (shape.map (·.1)) && !shape.any (·.2 == 0)
 
 end EasyMl
